@@ -193,7 +193,9 @@ func (t *topoRun) connect(s *mserver) {
 	s.stream = st
 	go func() { st.done <- t.m.MS.SendHeartbeat(st) }()
 	reg := vsState{vols: map[uint32]mvol{}, ecs: map[uint32]mec{}, max: map[string]uint32{}}
-	if s.reg != nil {
+	if s.reg != nil && s.tainted == "" {
+		// (not after an earlier race on this server: there the old stream's end has removed the node, and this
+		// connection makes a new one)
 		// the previous stream of this server is still registered (reconnect race): the master keeps its node, and a
 		// reported max of 0 means "not configured", which changes nothing - so the earlier figures stay in force
 		for k, v := range s.reg.max {
